@@ -68,6 +68,8 @@ def replay_scenarios(ck, binary, engine, name, scenarios, threads=None, label=No
         if d["kind"] == "values":
             values.append({"scenario": small(sc), "detail": det})
             continue
+        if d["kind"] == "engine":
+            raise vf.ToolError("the replay engine itself panicked on a scenario: %s" % json.dumps({"scenario": small(sc), "detail": det})[:1500])
         ck.violation(sig_of(sc, det, d["kind"]), json.dumps({"scenario": small(sc), "detail": det})[:1500],
                      {"engine": engine, "scenario": sc, "detail": det, "threads": threads})
     if summary is None:
